@@ -8,6 +8,7 @@ import (
 	"github.com/evanoberholster/imagemeta"
 	"github.com/evanoberholster/imagemeta/exif2"
 	"github.com/evanoberholster/imagemeta/imagetype"
+	"github.com/evanoberholster/imagemeta/isobmff"
 
 	"verif/internal/digest"
 )
@@ -37,6 +38,18 @@ func Decode(entry string, b []byte) (e exif2.Exif, err error, pan string) {
 		e, err = imagemeta.DecodeHeif(rd)
 	case "ExifParse":
 		e, err = exif2.Parse(rd)
+	case "BMFFExif": // the box reader with the Exif reader as its callback, every top-level box
+		ir := exif2.NewIfdReader(exif2.Logger)
+		defer ir.Close()
+		bmr := isobmff.NewReader(rd)
+		defer bmr.Close()
+		bmr.ExifReader = ir.DecodeIfd
+		err = bmr.ReadFTYP()
+		for i := 0; i < 8 && err == nil; i++ {
+			err = bmr.ReadMetadata()
+		}
+		err = nil // asked for more top-level boxes than the file has; what was extracted is what the caller compares
+		e = ir.Exif
 	default:
 		pan = "unknown entry " + entry
 	}
